@@ -203,7 +203,13 @@ def run_property(prop, harnesses, tier, seed, jobs=None, opts=None, out=sys.stdo
     reported = 0
     replays_ok = 0
     os.makedirs(os.path.join(ROOT, "replays"), exist_ok=True)
-    for i, (m, s, v) in enumerate(mine[:8]):
+    # replay a diverse selection: first one counterexample per (shape, label), then the rest, at most 24
+    seen_keys, first, rest = set(), [], []
+    for item in mine:
+        k = (json.dumps({a: b for a, b in item[1].items() if not a.startswith("_")}, sort_keys=True), item[2]["label"])
+        (rest if k in seen_keys else first).append(item)
+        seen_keys.add(k)
+    for i, (m, s, v) in enumerate((first + rest)[:24]):
         with ctxm.Pool(1) as pool:
             rp = pool.apply(_replay_worker, ((m, s, v),))
         repro = any(isinstance(rp.get(mode), list) and v["label"] in rp[mode] for mode in ("exact", "float"))
@@ -213,8 +219,9 @@ def run_property(prop, harnesses, tier, seed, jobs=None, opts=None, out=sys.stdo
         if repro:
             replays_ok += 1
             reported += 1
-            lines.append(f"VIOLATION property={prop} replay={path}")
-            lines.append(f"  label={v['label']} shape={json.dumps(s)} detail={v.get('detail')}")
+            if reported <= 6:
+                lines.append(f"VIOLATION property={prop} replay={path}")
+                lines.append(f"  label={v['label']} shape={json.dumps(s)} detail={v.get('detail')}")
             exit_code = EXIT_VIOLATION
         else:
             problems.append({"status": "error", "error": f"counterexample for {v['label']} did not reproduce "
